@@ -9,6 +9,9 @@ for id in $ids; do
   prop=$(python3 -c "import json;print(json.load(open('/verif/seeded/$id/meta.json'))['property'])")
   out=$(SHOW=1 sim/mutant_run.sh $id $prop 2>&1 | head -2)
   rc=$(echo "$out" | grep -o "rc=[0-9]*" | head -1)
-  if [ "$rc" = "rc=1" ]; then pass=$((pass+1)); echo "CAUGHT  $id ($prop) $(echo "$out" | head -1 | sed 's/.*check/check/')"; else fail=$((fail+1)); echo "MISSED  $id ($prop) $rc"; fi
+  exp=$(python3 -c "import json;print(json.load(open('/verif/seeded/$id/meta.json')).get('detected_by_quick_check', True))")
+  if [ "$rc" = "rc=1" ]; then pass=$((pass+1)); echo "CAUGHT  $id ($prop) $(echo "$out" | head -1 | sed 's/.*check/check/')"
+  elif [ "$exp" = "False" ]; then echo "KNOWN-MISS $id ($prop) $rc (recorded as not caught, see meta.json)"
+  else fail=$((fail+1)); echo "MISSED  $id ($prop) $rc"; fi
 done
 echo "seeded changes caught: $pass, missed: $fail"
